@@ -54,9 +54,12 @@ UNSUPPORTED = ["del a", "z, y = 1, 2", "a.x = 1", "z[0] = 1", "global a", "(z :=
 CLASS_BODIES = ["pass", "doc", "attr", "method", "init", "init-cond", "nested", "decorated"]
 BLOCK_KINDS = ["if", "if-else", "tc", "tc-else", "tc-nested-if", "typing.tc", "try-except", "try-full", "for", "while", "with",
                # the guard written one level down (inside a plain if / a try), and spelled through an import alias
-               "if-then-tc", "try-then-tc", "alias.tc", "renamed-tc"]
+               "if-then-tc", "try-then-tc", "alias.tc", "renamed-tc",
+               # a plain `if` inside a `try` inside the guard: statements after the inner `if` are still guarded
+               "tc-try-if"]
+SMALL_ONLY = {"tc-try-if"}
 ARMS = {"if": 1, "if-else": 2, "tc": 1, "tc-else": 2, "tc-nested-if": 2, "typing.tc": 1, "try-except": 2, "try-full": 4, "for": 1, "while": 1, "with": 1,
-        "if-then-tc": 2, "try-then-tc": 1, "alias.tc": 1, "renamed-tc": 1}
+        "if-then-tc": 2, "try-then-tc": 1, "alias.tc": 1, "renamed-tc": 1, "tc-try-if": 2}
 
 
 def leaves(names=("a", "b"), full=True):
@@ -92,7 +95,7 @@ def blocks(full=True):
     out = []
     for k in BLOCK_KINDS:
         n = ARMS[k]
-        arms_alpha = ARM_LEAVES if (n <= 2 and full) else ARM_LEAVES_SMALL
+        arms_alpha = ARM_LEAVES if (n <= 2 and full and k not in SMALL_ONLY) else ARM_LEAVES_SMALL
         for arms in itertools.product(arms_alpha, repeat=n):
             out.append(("block", k, tuple((a,) for a in arms)))
     return out
@@ -315,6 +318,14 @@ def render_stmt(r: R, s, ind, ctx, scope):
             arm(arms[0], ind + 2, "if", True)
             r.emit("except ImportError:", ind)
             r.emit("pass", ind + 1)
+        elif kind == "tc-try-if":
+            r.emit("if TYPE_CHECKING:", ind)
+            r.emit("try:", ind + 1)
+            r.emit("if z:", ind + 2)
+            arm(arms[0], ind + 3, "if", True)
+            arm(arms[1], ind + 2, None, True)
+            r.emit("except ImportError:", ind + 1)
+            r.emit("pass", ind + 2)
         elif kind in ("tc", "typing.tc"):
             r.emit("if TYPE_CHECKING:" if kind == "tc" else "if typing.TYPE_CHECKING:", ind)
             arm(arms[0], ind + 1, "if", True)
